@@ -96,6 +96,19 @@ def streams(tier):
         for follow in (T.enc_keepalive(), T.enc_segment(3, 5, b'ab', [T.ext_total_length(2)]) + T.enc_keepalive()):
             data = ch + inits[0][1] + first + follow
             out.append(dict(name='passive/%s/%s+%d-octets' % (inits[0][0], nm, len(follow)), role='passive', stream=data.hex()))
+    # a transfer whose END segment carries no data, followed by nothing / by a further message
+    tl = T.ext_total_length
+    for (nm, tail) in (('empty-end-segment', b''), ('empty-end-segment+keepalive', T.enc_keepalive()),
+                       ('empty-end-segment+next-transfer', T.enc_segment(3, 8, b'', [tl(0)]))):
+        data = ch + inits[0][1] + T.enc_segment(2, 7, b'ab', [tl(2)]) + T.enc_segment(1, 7, b'') + tail
+        out.append(dict(name='passive/%s/%s' % (inits[0][0], nm), role='passive', stream=data.hex()))
+    # the endpoint offers TLS (its default), the peer does not: the session goes on in the clear and whatever follows
+    # the peer's contact header - in the same read or not - is the first message
+    for role in ('passive', 'active'):
+        for combo in ((), (1,), (3, 4)):
+            data = ch + inits[0][1] + b''.join(mn[i][1] for i in combo)
+            out.append(dict(name='%s/tls-offered-not-taken/%s' % (role, '+'.join(mn[i][0] for i in combo) or 'none'),
+                            role=role, stream=data.hex(), tls_enable=True))
     # the active role: R has sent its header first and waits for the peer's
     for (iname, ibytes) in inits:
         for combo in [(), (1,), (3, 4), (9,)]:
@@ -126,7 +139,7 @@ def run_stream(params, known):
     is a complete state graph over delivered-octet counts).'''
     stream = bytes.fromhex(params['stream'])
     n = len(stream)
-    wparams = dict(role=params['role'], queued=tuple(params.get('queued', ())), seg_mru=64, tx_init=64)
+    wparams = dict(role=params['role'], queued=tuple(params.get('queued', ())), seg_mru=64, tx_init=64, tls_enable=params.get('tls_enable', False))
     # the independent framer
     sp = T.StreamParser()
     if params.get('pre'):
